@@ -8,7 +8,7 @@
    correspondence check evaluates on the IMPLEMENTATION's observation. *)
 From Coq Require Import Floats.
 From Boltons Require Import Lib.Prelude Lib.C15_Float Spec.C15_Spec Model.C15_Model
-  Proofs.C15_Proofs Proofs.C15_ZInstance Proofs.C15_Prim.
+  Proofs.C15_Proofs Proofs.C15_ZInstance Proofs.C15_Prim Check.C15_Check Proofs.C15_Tie.
 
 (* ---- main theorem: the model refines the Spec --------------------------------- *)
 (* For all parameters (valid or not), both entry points, all counts, all jitter
@@ -241,6 +241,18 @@ Theorem C15_binary64_default_count_jitter :
                              else ideal prim_ops stop factor start (length (o_vals o))) = true.
 Proof. exact binary64_default_count_jitter. Qed.
 Print Assumptions C15_binary64_default_count_jitter.
+
+(* ---- soundness of the correspondence verdict ----------------------------------------------------
+   For every case the check evaluates: if its [agree] bit is true (the implementation's observation
+   is the model's run for the recorded draws in order, or for some assignment of recorded draws to
+   the values), then the IMPLEMENTATION's observation satisfies the Spec, or the call is inside the
+   guard of the open finding.  This is the step "agree on a run transfers the theorem to the code on
+   that run", proved rather than argued; the [holds] bit the check also evaluates is a cross-check. *)
+Theorem C15_agree_implies_holds :
+  forall c, c15_agree c = true ->
+    spec_holds prim_ops (c_p c) (c_obs c) = true \/ spec_known prim_ops (c_p c) (c_fuel c) = true.
+Proof. exact agree_implies_holds. Qed.
+Print Assumptions C15_agree_implies_holds.
 
 (* ---- the hypotheses are inhabited ------------------------------------------------------ *)
 (* the three law records are jointly satisfiable (exact integer arithmetic) *)
